@@ -32,7 +32,7 @@ SIMPLE_KINDS = [
     'vallist', 'valdict', 'valcall', 'valawait', 'valsemi', 'valtuple_ml', 'valbytes', 'printblank',
     'tstr_blank', 'tstr_col0_dq', 'classdeco', 'tryfinally', 'forelse_print', 'genexpr', 'comment_after',
     'stdout_ref', 'stdout_write_bound', 'tstr_trailing_ws', 'print_inline_directive', 'val_after_inline_directive',
-    'val_with_inline_directive', 'print_indented',
+    'val_with_inline_directive', 'print_indented', 'tstr_other_quotes',
 ]
 
 
@@ -77,6 +77,11 @@ def make_group(k, kind):
         L = ["v{} = ({}, '''".format(k, t), ['U0', 'zero col text'], ['U0', 'ab'], "''')"]
     elif kind == 'tstr_col0_dq':
         L = ['v{} = ({}, """dq'.format(k, t), ['U0', 'zero col in double quotes'], '""")']
+    elif kind == 'tstr_other_quotes':
+        # a ''' string whose unprefixed content (text in the first four columns) mentions the other kind of triple quote,
+        # opened on one line and closed on a later one (a code template that holds a docstring)
+        L = ["v{} = ({}, '''".format(k, t), ['U0', 'def tmpl():'], ['U0', '\"\"\" opens'], ['U0', 'inside the other quotes'],
+             ['U0', 'closes \"\"\"'], ['U0', 'ab'], "''')"]
     elif kind == 'tstr_blank':
         L = ['v{} = ({}, """first'.format(k, t), ['U4', ''], ['U4', 'after blank'], '""")']
     elif kind == 'if':
